@@ -184,7 +184,10 @@ func sitePositions(ss []Site) []string {
 func (p *Program) funcsCalling(pkg string, filter func(f *Func, c *ast.CallExpr) bool, specs ...Callee) []*Func {
 	var out []*Func
 	for _, f := range p.Decls(pkg) {
-		for _, s := range f.Calls(specs...) {
+		if p.isWrapperOf(f, specs...) {
+			continue // a thin helper around the operation: its callers are the functions of interest
+		}
+		for _, s := range f.CallsW(specs...) {
 			if filter == nil || filter(f, s.Call) {
 				out = append(out, f)
 				break
@@ -621,4 +624,154 @@ func nodeStr(n ast.Node) string {
 		return "defer " + nodeStr(x.Call)
 	}
 	return fmt.Sprintf("%T", n)
+}
+
+// ---------------------------------------------------------------------------
+// Wrapper summaries (T1 "a same-package helper counts as event A").
+
+var watchedOps = []Callee{specUpload, specFetch, specDiscard, specLockFet, specLockRepl, specLockCrea, specApply, {pkgCtlog, "Log", "cachePut"}}
+
+// wrapperCall reports whether g is a thin wrapper of one of specs: a declared
+// function of the same package whose own body contains exactly one watched
+// storage/lock operation, that operation matches specs, and every return with
+// a possibly-nil error either returns that call or is dominated by its
+// success edge. Such a helper is, for ordering rules, the operation itself.
+func (p *Program) wrapperCall(g *Func, specs []Callee, depth int) *ast.CallExpr {
+	if g == nil || g.Decl == nil || g.Body == nil || !g.hasErrorResult() {
+		return nil
+	}
+	all := g.Calls(watchedOps...)
+	if len(all) != 1 || !matchCallee(g.Info(), all[0].Call, specs...) {
+		return nil
+	}
+	// nested literals must not perform watched operations either
+	for _, l := range allLits(g) {
+		if len(l.Calls(watchedOps...)) > 0 {
+			return nil
+		}
+	}
+	s := all[0]
+	nilE, _, _, tested := OutcomeEdges(s)
+	gg := g.Graph()
+	for _, r := range g.Returns() {
+		ret := r.X.(*ast.ReturnStmt)
+		// `return op(...)` passing all results through
+		if len(ret.Results) == 1 {
+			if c, ok := ast.Unparen(ret.Results[0]).(*ast.CallExpr); ok && c == s.Call {
+				continue
+			}
+		}
+		e := g.errResultExpr(ret)
+		if e == nil {
+			return nil
+		}
+		if !g.mayBeNilError(e) {
+			continue
+		}
+		if c, ok := ast.Unparen(g.ResolveDeep(e).E).(*ast.CallExpr); ok && c == s.Call {
+			continue // return op(...)
+		}
+		if !tested || len(nilE) == 0 {
+			return nil
+		}
+		if pt, _ := gg.ReachableFromEntry(Cut{Edges: nilE}, atSite(r)); pt != nil {
+			return nil
+		}
+	}
+	return s.Call
+}
+
+// CallsW is Calls extended with calls to thin wrappers of the operation. For
+// a wrapper site, Site.Call is a virtual call whose callee is the wrapped
+// operation and whose arguments are the caller's expressions wherever the
+// helper passes a parameter straight through (the helper's own expression
+// otherwise); Site.Real is the call in f's body.
+func (f *Func) CallsW(specs ...Callee) []Site {
+	out := f.Calls(specs...)
+	info := f.Info()
+	for _, s := range f.Find(func(n ast.Node) bool {
+		call, ok := n.(*ast.CallExpr)
+		if !ok {
+			return false
+		}
+		fn, ok := calleeObj(info, call).(*types.Func)
+		if !ok || fn.Pkg() == nil || fn.Pkg().Path() != f.Pkg.PkgPath {
+			return false
+		}
+		return !matchCallee(info, call, specs...)
+	}) {
+		fn := calleeObj(info, s.Call).(*types.Func)
+		g := f.Prog.FuncOf(fn)
+		if g == nil || g == f {
+			continue
+		}
+		inner := f.Prog.wrapperCall(g, specs, 0)
+		if inner == nil {
+			continue
+		}
+		virt := &ast.CallExpr{Fun: inner.Fun, Lparen: s.Call.Lparen, Rparen: s.Call.Rparen}
+		for _, a := range inner.Args {
+			virt.Args = append(virt.Args, reroot(info, g, s.Call, a))
+		}
+		ws := s
+		ws.Real, ws.Call, ws.Via = s.Call, virt, g
+		out = append(out, ws)
+	}
+	sort.Slice(out, func(i, j int) bool { return out[i].X.Pos() < out[j].X.Pos() })
+	return out
+}
+
+// isWrapperOf reports whether f itself is a thin wrapper of specs.
+func (p *Program) isWrapperOf(f *Func, specs ...Callee) bool { return p.wrapperCall(f, specs, 0) != nil }
+
+// reroot rewrites an expression of helper g in terms of the caller: a
+// parameter (or the receiver) is replaced by the argument at call, and a field
+// path rooted at one keeps its selectors (whose identifiers stay known to the
+// type checker) over the caller's expression.
+func reroot(info *types.Info, g *Func, call *ast.CallExpr, e ast.Expr) ast.Expr {
+	switch x := ast.Unparen(e).(type) {
+	case *ast.Ident:
+		if o := objOf(info, x); o != nil && isParamOrRecv(g, o) {
+			if arg := argForParam(g, call, o); arg != nil {
+				return arg
+			}
+		}
+	case *ast.SelectorExpr:
+		nx := reroot(info, g, call, x.X)
+		if nx != x.X {
+			return &ast.SelectorExpr{X: nx, Sel: x.Sel}
+		}
+	}
+	return e
+}
+
+// IsCallResultW is IsCallResult that also accepts a call to a thin wrapper of
+// the operation; it returns the (virtual) call.
+func (f *Func) IsCallResultW(e ast.Expr, idx int, specs ...Callee) (*ast.CallExpr, bool) {
+	if c, ok := f.IsCallResult(e, idx, specs...); ok {
+		return c, true
+	}
+	v := f.ResolveDeep(e)
+	call, ok := ast.Unparen(v.E).(*ast.CallExpr)
+	if !ok {
+		return nil, false
+	}
+	if idx >= 0 && v.Idx >= 0 && v.Idx != idx {
+		return nil, false
+	}
+	for _, s := range f.Top().CallsWDeep(specs...) {
+		if s.Real == call {
+			return s.Call, true
+		}
+	}
+	return nil, false
+}
+
+// CallsWDeep is CallsW over f and its nested literals.
+func (f *Func) CallsWDeep(specs ...Callee) []Site {
+	out := f.CallsW(specs...)
+	for _, l := range f.Lits {
+		out = append(out, l.CallsWDeep(specs...)...)
+	}
+	return out
 }
